@@ -298,7 +298,7 @@ def run_unit(ctx):
         probs, n = py_spec(ops, r, fileb)
         ncalls += n
         if probs:
-            viol.append(dict(what="c03file: " + probs[0], failing_input=case, impl=dict(results=r["results"], objects=[(o["path"], o["kind"], o["addr"]) for o in (r.get("final") or {}).get("objects", [])][:80]), problems=probs[:10]))
+            viol.append(dict(what="c03file: " + probs[0], failing_input=case, impl=dict(results=r["results"], objects=[(o["path"], o["kind"], o["addr"]) for o in ((r.get("final") or {}).get("objects") or [])][:80]), problems=probs[:10]))
             continue
         oks = [bool(x.get("ok")) for o, x in zip(ops, r["results"]) if o["op"] != "write"]
         nrefused += oks.count(False)
